@@ -656,6 +656,27 @@ class Sim:
                         v = float(np.asarray(covs[k])[d, d])
                         vals[(i, d)] = v / float(costs[d]) if costs is not None else v
                 return {"active": act, "vals": vals}
+            if algo == "DecoupledGP" and int(getattr(a, "batch_size", 1)) == 1:
+                # Thompson-entropy values are random: recompute the table with the same real
+                # acquisition class from the torch generator state at phase entry, then rewind the
+                # generator so that the real phase draws the same samples.  This decides selection,
+                # cost weighting and bookkeeping -- not the entropy formula itself.
+                from vopy.acquisition import ThompsonEntropyDecoupledAcquisition
+
+                state = torch.get_rng_state()
+                try:
+                    acq = ThompsonEntropyDecoupledAcquisition(a.model, order=a.order, costs=a.costs)
+                    vals = {}
+                    for d in range(a.m):
+                        acq.evaluation_index = d
+                        v = np.asarray(acq(a.points), float)
+                        for i in range(len(a.points)):
+                            vals[(i, d)] = float(v[i])
+                finally:
+                    torch.set_rng_state(state)
+                return {"active": list(range(len(a.points))), "vals": vals, "pairs": True}
+            if algo == "DecoupledGP":
+                return {"active": list(range(len(a.points)))}
             if algo in ("PaVeBa",):
                 return {"active": sorted(S | U)}
             if algo == "Auer":
@@ -712,7 +733,7 @@ class Sim:
                     self.violate("C07", "not-every-active-design-once", {"queried": sorted(designs), "active": act})
             elif "vals" in acq:
                 vals = acq["vals"]
-                keys = [(r[0], r[1]) if algo == "PaVeBaPartialGP" else r[0] for r in rows]
+                keys = [(r[0], r[1]) if (algo == "PaVeBaPartialGP" or acq.get("pairs")) else r[0] for r in rows]
                 want = min(int(getattr(a, "batch_size", 1)), len(vals))
                 self.judge("C07", "argmax")
                 if len(set(keys)) != len(keys):
